@@ -22,7 +22,7 @@ LEVEL_TEXT = ("Lean 4 theorems over the store+directory model for all add/update
 LEVEL_NOTE = "Assurance = weaker of (theorems about the model, correspondence with the real store/configurator/manager on a real directory)."
 TECHNIQUE = "Lean 4 proof (invariant over all store histories) + model/implementation correspondence on a real directory"
 
-KEYS = [("a", "b"), ("a", "c"), ("a-b", "c"), ("a", "b-c"), ("a", "b-ca.crt"), ("a", "s.1")]
+KEYS = [("a", "b"), ("a", "c"), ("a-b", "c"), ("a", "b-c"), ("a", "b-ca.crt"), ("a", "s.1"), ("a", "b.tmp"), ("a", "b.bak")]
 TYPES = ["tls", "tls", "jwk", "htp", "ca", "oidc", "api", "opaque"]
 PAYLOADS = {"tls": ["ok", "ok", "ok", "mismatch", "nonpem", "missing"], "jwk": ["ok", "ok", "missing"], "htp": ["ok", "ok", "missing"],
             "ca": ["ok", "ok", "nonpem", "missing"], "oidc": ["ok", "missing"], "api": ["ok", "dup"], "opaque": ["ok"]}
@@ -75,7 +75,9 @@ def gen_prefix_case(rng):
     """Two or three materialised secrets whose file names are in a prefix relation; then the shorter one is
     deleted, invalidated or updated, and the others are looked up again."""
     group = rng.choice([[("a", "b"), ("a", "b-c")], [("a", "b"), ("a", "b-ca.crt")], [("a", "s"), ("a", "s.1"), ("a", "s-x")],
-                        [("a", "b"), ("a-b", "c")]])
+                        [("a", "b"), ("a-b", "c")],
+                        # names that look like the scratch / backup files a writer might use next to the real one
+                        [("a", "b"), ("a", "b.tmp")], [("a", "b"), ("a", "b.bak"), ("a", "b.new")], [("a", "s"), ("a", "s~"[:1] + ".swp")]])
     types = ["tls", "jwk", "htp"]
     ops, typ = [], {}
     for k in group:
